@@ -210,6 +210,12 @@ def _tr_ubm(ubm, a, b):
     return _gmm(np.asarray(ubm.weights, float), np.asarray(ubm.means, float) * a + b, np.asarray(ubm.variances, float) * a * a)
 
 
+def _shift_ratio(a, b, s):
+    """Statistics are raw sums: F - N*m is formed from numbers of size |b|*N, so every quantity built from it carries a
+    relative error of about eps * |b| / (|a| * unit). The comparisons scale their absolute tolerance with this ratio."""
+    return 1.0 + float(np.max(np.abs(b) / (np.abs(a) * s)))
+
+
 def _linear_case(case, c, s, o):
     from bob.learn.em import linear_scoring
 
@@ -229,7 +235,8 @@ def _linear_case(case, c, s, o):
             ra = np.asarray(linear_scoring(models, ubm, sa, off if use_off else 0, norm))
             rb = np.asarray(linear_scoring(models * a + b, ub, sb, off * a if use_off else 0, norm))
             c.transitions += 2
-            c.close(rb, ra, "linear_score_invariant", f"linear scores on transformed features (norm={norm}, offsets={use_off}) vs original", tags, rtol=1e-7, scale=float(np.abs(ra).max()) + 1e-9, kappa=1e6)
+            c.close(rb, ra, "linear_score_invariant", f"linear scores on transformed features (norm={norm}, offsets={use_off}) vs original", tags, rtol=1e-7,
+                    scale=(float(np.abs(ra).max()) + 1e-9) * _shift_ratio(a, b, s), kappa=1024)
     return True
 
 
@@ -258,18 +265,19 @@ def _fa_case(case, c, s, o):
     sa = [ubm.acc_stats(f) for f in frames]
     sb = [ub.acc_stats(f * a + b) for f in frames]
     tags = dict(fam=kind)
+    R = _shift_ratio(a, b, s)
     ea, eb = A.enroll(copy.deepcopy(sa[:2])), B.enroll(copy.deepcopy(sb[:2]))
     c.transitions += 2
     fa_ = ea if isinstance(ea, tuple) else (ea,)
     fb_ = eb if isinstance(eb, tuple) else (eb,)
     for nm, x1, x2 in zip(("y", "z") if kind == "jfa" else ("z",), fa_, fb_):
-        c.close(np.asarray(x2, float).ravel(), np.asarray(x1, float).ravel(), "factors_invariant", f"enrolled factor {nm} on transformed features vs original", tags, rtol=1e-7, scale=1.0, kappa=1e6)
+        c.close(np.asarray(x2, float).ravel(), np.asarray(x1, float).ravel(), "factors_invariant", f"enrolled factor {nm} on transformed features vs original", tags, rtol=1e-7, scale=R, kappa=4096)
     xa, xb = np.asarray(A.estimate_x(sa[2:4]), float), np.asarray(B.estimate_x(sb[2:4]), float)
-    c.close(xb, xa, "factors_invariant", "channel factor x of a probe", tags, rtol=1e-7, scale=1.0, kappa=1e6)
+    c.close(xb, xa, "factors_invariant", "channel factor x of a probe", tags, rtol=1e-7, scale=R, kappa=4096)
     uxa, uxb = np.asarray(A.estimate_ux(sa[2:4]), float), np.asarray(B.estimate_ux(sb[2:4]), float)
-    c.close(uxb, uxa * arow, "offset_follows_features", "channel offset U x follows the feature scale", tags, rtol=1e-7, scale=np.abs(arow) * (float(np.abs(uxa).max()) + 1e-9), kappa=1e6)
+    c.close(uxb, uxa * arow, "offset_follows_features", "channel offset U x follows the feature scale", tags, rtol=1e-7, scale=np.abs(arow) * (float(np.abs(uxa).max()) + 1e-9) * R, kappa=4096)
     sca, scb = float(A.score(ea, copy.deepcopy(sa[2:4]))), float(B.score(eb, copy.deepcopy(sb[2:4])))
-    c.close(scb, sca, "score_invariant", f"{kind} score on transformed features vs original", tags, rtol=1e-7, scale=abs(sca) + 1e-6, kappa=1e6)
+    c.close(scb, sca, "score_invariant", f"{kind} score on transformed features vs original", tags, rtol=1e-7, scale=(abs(sca) + 1e-6) * R, kappa=4096)
     c.transitions += 6
     # training
     y = np.array([0, 1, 0, 1])
@@ -280,7 +288,7 @@ def _fa_case(case, c, s, o):
         va, vb = np.asarray(getattr(A, nm), float), np.asarray(getattr(B, nm), float)
         want = va * (arow[:, None] if va.ndim == 2 else arow)
         c.close(vb, want, "subspace_equivariant", f"trained {nm} on transformed features vs row-scaled original", tags, rtol=1e-6,
-                scale=(np.abs(arow)[:, None] if va.ndim == 2 else np.abs(arow)) * (float(np.abs(va).max()) + 1e-9), kappa=1e7)
+                scale=(np.abs(arow)[:, None] if va.ndim == 2 else np.abs(arow)) * (float(np.abs(va).max()) + 1e-9) * R, kappa=1e5)
     return True
 
 
@@ -306,7 +314,7 @@ def _ivector_case(case, c, s, o):
     sb = [ub.acc_stats(f * a + b) for f in frames]
     tags = dict(fam="ivector")
     for x1, x2 in zip(sa, sb):
-        c.close(np.asarray(B.project(x2), float), np.asarray(A.project(x1), float), "ivector_invariant", "i-vector on transformed features vs original", tags, rtol=1e-7, scale=1.0, kappa=1e6)
+        c.close(np.asarray(B.project(x2), float), np.asarray(A.project(x1), float), "ivector_invariant", "i-vector on transformed features vs original", tags, rtol=1e-7, scale=_shift_ratio(a, b, s), kappa=4096)
         c.transitions += 2
     condiv = EPS * float((np.abs(np.vstack(frames) * a + b).max(axis=0) ** 2 / (np.asarray(B.sigma, float).min(axis=0))).max())
     if condiv > 1e-9:
